@@ -811,3 +811,22 @@ Proof.
   - simpl. apply ns_get_del_nodup. assumption.
   - simpl. apply ns_get_update_in; assumption.
 Qed.
+
+(** save() takes effect at the moment of the call: whatever the rest of the block does — also when it
+    raises — a key the rest does not save again keeps the value it has when the rest starts *)
+Theorem rest_of_block_keeps_saved fuel E rest s1 r s' k :
+  gk E = GPlain -> exec_block fuel E rest s1 = (r, s') ->
+  ~ In k (block_targets rest) -> ns_get k (ctx s') = ns_get k (ctx s1).
+Proof.
+  intros G H N. apply (ssound_exec_block fuel E rest G) in H.
+  destruct H as (ds & A & B & C & D). rewrite B.
+  apply apply_saves_get_untouched. intros d Hd Hk.
+  rewrite Forall_forall in C. apply N. eapply C; eauto.
+Qed.
+
+(** the state right after [save(k=z)] has [k] in the context *)
+Lemma save_kw_writes_now names k z s :
+  collect_saved names (g s) [] = inr [] ->
+  do_save names [(k, PInt z)] s
+  = (Ok tt, set_ctx_saves (ns_set k (PInt z) (ctx s)) (saves s ++ [[(k, PInt z)]]) s).
+Proof. intros H. unfold do_save. rewrite H. reflexivity. Qed.
